@@ -9,3 +9,5 @@ open Model.C01
 #print axioms join_self
 #print axioms join_other_id_unchanged
 #print axioms join_empty
+#print axioms rebuild_equals_source
+#print axioms Model.rebuild_spec
